@@ -37,6 +37,7 @@ type HarnessSpec struct {
 	Instances       []map[string]int          `json:"instances,omitempty"`          // extra bound sets, each run separately (quick and thorough)
 	InstancesThorough []map[string]int        `json:"instances_thorough,omitempty"` // thorough-only instances
 	NoReplayKinds   []string                  `json:"no_replay_kinds,omitempty"`
+	NoReplayAsserts []string                  `json:"no_replay_asserts,omitempty"` // assertions about engine-only observations (lock state): not reproducible natively
 	ReplayRepeat    int                       `json:"replay_repeat,omitempty"` // native replays per counterexample (order-dependent behaviour shows up only in some runs)
 	TimeoutMs       int                       `json:"solver_timeout_ms,omitempty"`
 	Claim           string                    `json:"claim,omitempty"`
@@ -462,6 +463,11 @@ func noReplayKind(spec CheckSpec, v sym.Violation) bool {
 		if h.Fn == v.Harness {
 			for _, k := range h.NoReplayKinds {
 				if k == v.Kind {
+					return true
+				}
+			}
+			for _, a := range h.NoReplayAsserts {
+				if v.Kind == "assert" && a == v.ID {
 					return true
 				}
 			}
